@@ -79,7 +79,9 @@ def index_args(path):
 
 def metadata_for(f):
     if f['circ']:
-        return GVFMetadata(parser='parseCIRCexplorer', source=f.get('source', 'circRNA'), chrom='Gene ID')
+        return GVFMetadata(parser='parseCIRCexplorer', source=f.get('source', 'circRNA'), chrom='Gene ID',
+                           reference_index=f.get('reference_index'), genome_fasta=f.get('genome_fasta'),
+                           annotation_gtf=f.get('annotation_gtf'))
     # note: GVFMetadata.__init__ aliases (and add_info mutates) the module-level INFO table; harmless for the round trip
     return GVFMetadata(parser=f.get('parser', 'parseVEP'), source=f.get('source', 'gSNP'), chrom='Gene ID',
                        reference_index=f.get('reference_index'), genome_fasta=f.get('genome_fasta'),
@@ -137,8 +139,37 @@ def apply_edit(path, edit):
         if lines and lines[-1] == b'':
             lines = lines[:-2] + [b'']
         data = b'\n'.join(lines)
-    elif t == 'touch':
-        pass
+    elif t == 'crlf':                       # LF -> CRLF (unix2dos)
+        data = data.replace(b'\r\n', b'\n').replace(b'\n', b'\r\n')
+    elif t == 'lf':                         # CRLF -> LF (dos2unix)
+        data = data.replace(b'\r\n', b'\n')
+    elif t == 'trail_ws':                   # white space added at the end of one line from '#CHROM' on
+        lines = data.split(b'\n')
+        cand = [i for i, l in enumerate(lines[:-1]) if not l.startswith(b'##')]
+        if cand:
+            i = cand[edit['a'] % len(cand)]
+            cr = lines[i].endswith(b'\r')
+            core = lines[i][:-1] if cr else lines[i]
+            lines[i] = core + edit['ws'].encode() + (b'\r' if cr else b'')
+        data = b'\n'.join(lines)
+    elif t == 'lone_cr':                    # the terminator of one record line becomes a bare CR (classic Mac ending)
+        lines = data.split(b'\n')
+        cand = [i for i, l in enumerate(lines[:-1]) if l and not l.startswith(b'#')]
+        if cand:
+            i = cand[edit['a'] % len(cand)]
+            if not lines[i].endswith(b'\r'):
+                lines[i] = lines[i] + b'\r' + lines[i + 1]
+                del lines[i + 1]
+        data = b'\n'.join(lines)
+    elif t == 'bom':
+        data = b'\xef\xbb\xbf' + data
+    elif t == 'final_newline':              # drop the terminator of the last line
+        if data.endswith(b'\r\n'):
+            data = data[:-2]
+        elif data.endswith(b'\n'):
+            data = data[:-1]
+    elif t in ('touch', 'rewrite_identical'):
+        pass                                # same bytes written again (new mtime, new inode content)
     open(path, 'wb').write(data)
 
 def handle_pool(c):
@@ -157,15 +188,18 @@ def handle_pool(c):
             except Exception as e:
                 out['write_error'] = _exc(e)
                 return out
-            fo['text1'] = open(path, 'rb').read().decode('utf-8')
+            fo['text1'] = open(path, 'rb').read().decode('latin-1')      # bytes, one char per byte
             # second write: parse (metadata + records) -> write
             try:
                 p2 = d / ('f%d.second.gvf' % i)
                 rewrite_file(path, p2, f['circ'])
-                fo['text2'] = open(p2, 'rb').read().decode('utf-8')
+                fo['text2'] = open(p2, 'rb').read().decode('latin-1')
                 os.remove(p2)
             except Exception as e:
                 fo['text2'] = _exc(e)
+            for e in f.get('pre_edits', []):   # edits BEFORE indexing (e.g. a CRLF file that is then indexed)
+                apply_edit(path, e)
+            fo['indexed'] = open(path, 'rb').read().decode('latin-1')
             if f.get('idx'):
                 try:
                     index_gvf(index_args(path))
@@ -177,7 +211,7 @@ def handle_pool(c):
                 fo['idx_text'] = f['raw_idx']
             for e in f.get('edits', []):
                 apply_edit(path, e)
-            fo['final'] = open(path, 'rb').read().decode('utf-8')
+            fo['final'] = open(path, 'rb').read().decode('latin-1')
             fo['sha512'] = hashlib.sha512(open(path, 'rb').read()).hexdigest()
             # linear scan with the repo's reader
             try:
